@@ -60,7 +60,7 @@ def describe_arg(t):
 
 
 def cmd(gid, toks, args=None, seps=None, pat="", filler="0"):
-    return {"case": gid, "op": "cmd", "toks": toks, "seps": seps or [], "filler": filler,
+    return {"case": gid, "op": "cmd", "toks": toks, "seps": seps or [], "filler": filler, "fillv": describe_arg(filler),
             "args": args if args is not None else [describe_arg(t) for t in toks[1:]], "pat": pat}
 
 
@@ -76,7 +76,7 @@ class UICheck(Check):
     whys = None
     # the model also says how the mode stack evolves, which lines a view shows and that the emulator's cursor
     # follows the instruction pointer; these are checked on every session and reported, but belong to no listed property
-    extra_whys = ("modestack", "ipcursor", "window", "marks")
+    extra_whys = ("modestack", "ipcursor", "window", "marks", "emuregs")
 
     @property
     def constants(self):
